@@ -408,7 +408,7 @@ func c05ChecksumLast(w *World, r *Report) {
 			}
 		})
 		if len(sums) == 0 {
-			r.Fail("C05-b", fnName(fn), "checksum computed over the encoded bytes", w.relFile(fn.Pos()), "no checksum computation over the output buffer found in the encoder")
+			r.Undecided("C05-b", fnName(fn), "checksum computed over the encoded bytes", w.relFile(fn.Pos()), "no checksum computation over the output buffer found in the encoder (it may have moved into a helper this rule does not follow)")
 			continue
 		}
 		// the last checksum call is the one over the final bytes
